@@ -35,6 +35,29 @@ package mapr
 //@ func (*GroupSet).Serialize
 //@   assigns *ch
 
+// Every select condition of a parsed query carries one of the seven
+// aggregation operations (Count..Len), so Merge / resultSelect never reach
+// their "unknown aggregation" branch.
+//@ type Query invariant [select-ops-valid] forall(i, 0, len(self.Select), self.Select[i].Operation >= 1 && self.Select[i].Operation <= 7)
+
+//@ func (*AggregateSet).Merge
+//@   requires [args] query != nil && set != nil
+//@   assigns s.Samples, *s.FValues, *s.SValues
+//@   ensures [no-error] isnil(result)
+//@ func (*GlobalGroupSet).merge
+//@   requires [args] query != nil && group != nil
+//@   assigns *g.sets
+//@   ensures [no-error] isnil(result)
+//@ func (*GlobalGroupSet).MergeNoblock
+//@   requires [args] query != nil && group != nil
+//@   assigns *g.sets, *g.semaphore
+//@   ensures [no-error] isnil(result1)
+//@ func (*GlobalGroupSet).Merge
+//@   requires [args] query != nil && group != nil
+//@   assigns *g.sets, *g.semaphore
+//@   ensures [no-error] isnil(result)
+//@ type GlobalGroupSet invariant [semaphore] self.semaphore != nil
+
 // ---- tokens --------------------------------------------------------------------
 //@ func tokensConsume
 //@   assigns nothing
@@ -52,8 +75,11 @@ package mapr
 // ---- clause builders -------------------------------------------------------------
 //@ func makeSelectConditions
 //@   assigns nothing
+//@   ensures [ops-valid] forall(i, 0, len(result0), result0[i].Operation >= 1 && result0[i].Operation <= 7)
+//@   loop 1 invariant [ops-valid] forall(i, 0, len(sel), sel[i].Operation >= 1 && sel[i].Operation <= 7)
 //@ func makeSelectConditions$1
 //@   assigns nothing
+//@   ensures [op-valid] implies(isnil(result1), result0.Operation >= 1 && result0.Operation <= 7)
 //@ func makeWhereConditions
 //@   assigns nothing
 //@ func makeWhereConditions$1
